@@ -702,7 +702,77 @@ def r7(ctx):
     ctx.ob("C01.R7", "body reader skips get_msg_freq_num_len() + offset", oks, DES)
 
 
+def r8(ctx):
+    repo = ctx.repo
+    ctx.rule("C01.R8", "reader accepts every framing the writer can emit: the 'message is empty' rejection tests "
+                       "only which block lists were seen (zero-count Variable blocks are legal), and the ack "
+                       "trailer is written under exactly the condition the reader reads it under")
+    bfs = class_methods_reachable(repo, repo.fn("UDPMessageDeserializer.parse_message_body"), depth=2)
+    n = 0
+    for f in bfs:
+        for r in [x for x in walk(f.node) if isinstance(x, ast.Raise)]:
+            # rejections outside the per-variable loop that look at the collected blocks
+            fs = facts(r, f.node)
+            blockish = [(e, pol) for e, pol in fs if any((p or "").endswith(".blocks") or ".blocks." in (p or "") or
+                                                         ".blocks[" in (p or "")
+                                                         for p in [ap(x) for x in ast.walk(e)
+                                                                   if isinstance(x, (ast.Attribute, ast.Subscript, ast.Call))])]
+            if not blockish or any(isinstance(a, (ast.For, ast.While)) for a in _anc(r) if a is not f.node):
+                continue
+            n += 1
+            for e, pol in blockish:
+                p = ap(e)
+                plain = p is not None and p.endswith(".blocks") and not isinstance(e, ast.Call)
+                ctx.ob("C01.R8", f"{f.qual}: rejection after the block walk tests plain `{norm(e)}`", plain, ctx.w(f, r),
+                       "an emptiness test over block *entries* rejects legal messages whose Variable blocks all have count 0")
+    ctx.floor("C01.R8", "emptiness rejections", n, 1)
+    # ack trailer presence condition equal on both sides
+    sf = repo.fn("UDPMessageSerializer.serialize")
+    hf = repo.fn("UDPMessageDeserializer._parse_message_header")
+
+    def ack_guard(f, opname):
+        out = []
+        for c in find_calls(f.node, opname, into_defs=False):
+            if c.args and spec_symbol(c.args[0]) and has_path_fact(c, "has_acks", True, f.node):
+                atoms_ = set()
+                from ..core import conditions
+                for cond in conditions(c, f.node):
+                    if cond.kind == "early-exit":
+                        ifst = parent(cond.test)
+                        exit_branch = ifst.body if not cond.polarity else ifst.orelse
+                        if isinstance(ifst, ast.If) and exit_branch and isinstance(exit_branch[-1], ast.Raise):
+                            continue  # a rejection (raise) is not a framing condition
+                    for e, pol in atoms(cond.test, cond.polarity):
+                        atoms_.add((re_sub_recv(src(e)), pol))
+                out.append((c, atoms_))
+        return out
+
+    def re_sub_recv(text):
+        import re
+        return re.sub(r"\b(msg|message|self)\.", "M.", text)
+    w = ack_guard(sf, "write")
+    r = ack_guard(hf, "read")
+    ctx.floor("C01.R8", "ack trailer ops", len(w) + len(r), 4)
+    r_atoms = set.intersection(*[a for _, a in r]) if r else set()
+    for c, a in w:
+        extra = {x for x in a if x not in r_atoms and x[0] != "M.has_acks"}
+        ctx.ob("C01.R8", f"ack trailer write `{norm(c)}` guarded exactly like the reader's trailer read", not extra,
+               ctx.w(sf, c), f"writer adds condition(s) {sorted(extra)}: the ACK flag is already in the header, so the "
+               f"reader would still strip a trailer")
+
+
+def r9(ctx):
+    """The string packer/decoder inverse idiom is also a C01 clause (value round-trip of text variables)."""
+    from ..engine import RenamedCtx
+    from . import c02
+    ctx.rule("C01.R9", "text variables: packer appends exactly one terminator and the reader strips exactly one "
+                       "(re-runs C02.R4 under C01)")
+    c02.r4(RenamedCtx(ctx, {"C02.R4": "C01.R9"}))
+
+
 def run(ctx):
+    r9(ctx)
+    r8(ctx)
     r7(ctx)
     r6(ctx)
     r1(ctx)
